@@ -24,6 +24,7 @@ def run(ctx):
         ctx.guard("C15", "expand", lambda: tail.compress_expand(ctx, prog))
         ctx.guard("C15", "narrow", lambda: convert.narrowing(ctx, prog))
         ctx.guard("C15", "expand-step", lambda: rle.expand_step(ctx, prog))
+        ctx.guard("C15", "expand-copy", lambda: rle.expand_copy(ctx, prog))
         ctx.guard("C15", "traits", lambda: convert.trait_forms(ctx, prog))
         ctx.guard("C15", "funnel", lambda: convert.normaliser_funnel(ctx, prog))
         ctx.guard("C15", "runs", lambda: normal.run_limit_agreement(ctx, prog))
